@@ -23,6 +23,7 @@ type Params struct {
 	OnQuiesce  func(s *Session) // extra probe at quiescent points
 	BeforeEnd  func(s *Session, commit bool) // called right before commit/abort
 	MinAlloc   int  // allocate (and write) this many pages first
+	FreeTop    int  // percent of the frees that take the highest live page (releases the end of the data area)
 	KeepFill   int  // try to keep at most this percent of a bounded file live (0 = default 60)
 }
 
@@ -108,6 +109,32 @@ func (s *Session) AccountCheck() {
 	if !s.everOverflow() && !s.resized {
 		if live, want := LiveFromSnap(fs), s.LiveIDs(); fmt.Sprint(live) != fmt.Sprint(want) {
 			s.fail("C04", "live-set", "pages neither free nor internal are %s, the live pages are %s", runsOf(live), runsOf(want))
+		}
+	}
+	// internal pages in use (overwrite pages, free-list pages, mapping pages) lie below the end markers:
+	// what lies beyond is cut off by the next truncate / not mapped after reopen (C04; C14 after a resize)
+	{
+		prop := "C04"
+		if s.resized {
+			prop = "C14"
+		}
+		end := fs.MetaEnd
+		if fs.DataEnd > end {
+			end = fs.DataEnd
+		}
+		bad := func(what string, id uint64) {
+			if id >= end {
+				s.fail(prop, "internal-beyond-end", "%s page %d is in use but lies beyond the end markers (data end %d, meta end %d, max pages %d)", what, id, fs.DataEnd, fs.MetaEnd, fs.MaxPages)
+			}
+		}
+		for _, e := range fs.Mapping {
+			bad("overwrite", e[1])
+		}
+		for _, id := range RegionIDs(fs.FreelistPages) {
+			bad("free-list", id)
+		}
+		for _, id := range RegionIDs(fs.WalPages) {
+			bad("mapping", id)
 		}
 	}
 	// free lists must not contain live pages or overlap (C04)
@@ -269,6 +296,9 @@ func (s *Session) RunTx(r *RNG, p Params) string {
 			}
 		case w < 50+p.FreePct || full:
 			if id, ok := pick(r, live); ok {
+				if r.Chance(p.FreeTop) {
+					id = live[len(live)-1]
+				}
 				s.Free(id)
 			}
 		case w < 78:
